@@ -86,7 +86,10 @@ func (t escapeMapping) Transform(dst, src []byte, atEOF bool) (nDst, nSrc int, e
 			n := copy(dst[nDst:], src[nSrc:nSrc+idx])
 			nDst += n
 			nSrc += n
-			if n != idx-nSrc {
+			if n != idx {
+				return nDst, nSrc, transform.ErrShortDst
+			}
+			if len(dst)-nDst < 3 {
 				return nDst, nSrc, transform.ErrShortDst
 			}
 			c := src[nSrc]
@@ -97,9 +100,6 @@ func (t escapeMapping) Transform(dst, src []byte, atEOF bool) (nDst, nSrc int, e
 			})
 			nDst += n
 			nSrc++
-			if n != 3 {
-				return nDst, nSrc, transform.ErrShortDst
-			}
 		}
 	}
 	return
@@ -223,17 +223,14 @@ func (t unescapeMapping) Transform(dst, src []byte, atEOF bool) (nDst, nSrc int,
 			if n != idx {
 				return nDst, nSrc, transform.ErrShortDst
 			}
-			if n == 0 {
-				n++
-			}
 			n = copy(dst[nDst:], []byte{
-				unhex(src[nSrc+n])<<4 | unhex(src[nSrc+n+1]),
+				unhex(src[nSrc+1])<<4 | unhex(src[nSrc+2]),
 			})
 			nDst += n
-			nSrc += 3
 			if n != 1 {
 				return nDst, nSrc, transform.ErrShortDst
 			}
+			nSrc += 3
 			continue
 		}
 		n := copy(dst[nDst:], src[nSrc:nSrc+idx+1])
